@@ -15,6 +15,9 @@ import os
 import random
 import re
 import sys
+import time
+if hasattr(sys, 'set_int_max_str_digits'):
+    sys.set_int_max_str_digits(0)
 from fractions import Fraction
 
 sys.path.insert(0, os.path.dirname(os.path.dirname(os.path.abspath(__file__))))
@@ -248,14 +251,18 @@ class Gen:
             c = self.coef()
             kinds.append(k)
             parts.append(txt if c is None else '%s*%s' % (c, txt))
+        self.last_parts = parts
         return kinds, ' + '.join(parts)
 
 
-def make_points(rng, text, nsym_vals=2):
+DS = [24, 144]
+
+
+def make_points(rng, npts=2):
     pts = []
-    for s0 in rng.sample([2, 3, 5, 7], 2):
+    for s0 in rng.sample([5, 7, 11, 13], npts):
         syms = {n: '%d/%d' % (rng.choice([2, 3, 5, 7]), rng.choice([1, 2])) for n in SYMS}
-        pts.append({'s0': s0, 'D': 24, 'syms': syms})
+        pts.append({'s0': s0, 'Ds': DS, 'syms': syms})
     return pts
 
 
@@ -330,54 +337,462 @@ if __name__ == '__main__' and len(sys.argv) <= 2:
         print(g.expression())
 
 
-# ------------------------------------------------------------------------------------------ experiment driver
-def experiment(seed, n):
-    rng = random.Random(seed)
+
+# ------------------------------------------------------------------------------------------ classification
+SPECIAL = ('rect', 'tri', 'ramp', 'rstep')
+
+
+def mono_signature(m):
+    fs = [f for f in m['fs'] if not (f[0] == 'u' and Fraction(f[1][0]) == 1 and Fraction(f[2][0]) == 0)]
+    return '*'.join(f[0] for f in fs) or '1'
+
+
+def support_start(f):
+    a, b = Fraction(f[1][0]), Fraction(f[2][0])
+    off = {'rect': Fraction(1, 2), 'tri': Fraction(1), 'ramp': Fraction(0), 'rstep': Fraction(0)}[f[0]]
+    return (-b - off) / a
+
+
+def classify(ast):
+    """stable fingerprint of a (minimised, single-term) failing input"""
+    if len(ast) != 1:
+        return 'value:' + '+'.join(sorted(mono_signature(m) for m in ast))
+    m = ast[0]
+    fs = [f for f in m['fs'] if not (f[0] == 'u' and Fraction(f[1][0]) == 1 and Fraction(f[2][0]) == 0)]
+    tags = [f[0] for f in fs]
+    if len(fs) == 1 and tags[0] in SPECIAL:
+        f = fs[0]
+        b = Fraction(f[2][0])
+        if b == 0:
+            return 'LaplaceTransformer.function:%s:scale' % {'rstep': 'rampstep'}.get(tags[0], tags[0])
+        if support_start(f) < 0:
+            return 'shifted-%s:support-starts-before-0' % {'rstep': 'rampstep'}.get(tags[0], tags[0])
+    if len(fs) == 3 and tags[0] in ('sin', 'cos') and 'exp' not in tags:
+        return 'LaplaceTransformer.sin_cos:three-factors-without-exp'
+    if 'delta' in tags and 'undef' in tags:
+        return 'term:DiracDelta*undefined-function'
+    for f in fs:
+        if f[0] == 'delta' and f[1] >= 1 and Fraction(f[2][0]) != 1:
+            return 'DiracDelta-derivative:scaled-argument'
+    return 'value:' + mono_signature(m)
+
+
+OBLIGATION_KEYS = {
+    'table_entry_tri': ['LaplaceTransformer.function:tri:scale'],
+    'tri_closed_form_is_integral': ['LaplaceTransformer.function:tri:scale'],
+    'table_entry_rstep': ['LaplaceTransformer.function:rampstep:scale'],
+    'rstep_closed_form_is_integral': ['LaplaceTransformer.function:rampstep:scale'],
+    'table_entry_rect': ['LaplaceTransformer.function:rect:scale'],
+    'rect_closed_form_is_integral': ['LaplaceTransformer.function:rect:scale'],
+    'table_entry_ramp': ['LaplaceTransformer.function:ramp:scale'],
+    'ramp_closed_form_is_integral': ['LaplaceTransformer.function:ramp:scale'],
+    'table_entry_sc_guard': ['LaplaceTransformer.sin_cos:three-factors-without-exp'],
+}
+# files whose statements need other files
+DEPENDS = {
+    'C09_int_sincos.v': ['C09_entry_sincos.v'], 'C09_int_rect.v': ['C09_entry_rect.v'], 'C09_int_tri.v': ['C09_entry_tri.v'],
+    'C09_int_rstep.v': ['C09_entry_rstep.v'], 'C09_int_ramp.v': ['C09_entry_ramp.v'],
+    'C09.v': ['C09_entry_basic.v', 'C09_entry_sincos.v', 'C09_entry_guard.v', 'C09_entry_rect.v', 'C09_entry_tri.v',
+              'C09_entry_ramp.v', 'C09_entry_rstep.v'],
+}
+PHASE2 = ['C09_entry_basic.v', 'C09_entry_sincos.v', 'C09_entry_guard.v', 'C09_entry_rect.v', 'C09_entry_tri.v',
+          'C09_entry_ramp.v', 'C09_entry_rstep.v', 'C09_analysis.v']
+PHASE3 = ['C09_int_sincos.v', 'C09_int_rect.v', 'C09_int_tri.v', 'C09_int_rstep.v', 'C09_int_ramp.v', 'C09.v']
+
+
+def targeted_cases(rng, names):
+    """inputs around the closed forms whose obligations broke (or all of them when the translation broke)"""
     g = Gen(rng)
-    cases = []
-    for i in range(n):
-        kinds, text = g.expression()
-        cases.append({'expr': text, 'zic': rng.random() < 0.3, 'kinds': kinds, 'points': make_points(rng, text), 'oracle': True})
-    res = core.run_impl('impl_laplace.py', cases)
-    w = core.Work(PID + 'x')
-    tr = T.Translator(core.REPO)
-    w.write('LaplaceGen.v', tr.coq())
-    ok, out, secs = core.coqc(w.dir, 'LaplaceGen.v')
-    assert ok, out
-    items = []
-    meta = {}
-    k = 0
-    for i, (c, r) in enumerate(zip(cases, res)):
-        if r.get('status') != 'ok':
-            print('SKIP', i, r.get('status'), c['expr'], r.get('error') or r.get('why') or '')
-            continue
-        for pi, (pt, val) in enumerate(zip(c['points'], r['values'])):
-            if isinstance(val, dict):
-                print('NOVAL', i, c['expr'], val, r['result'])
+    out = []
+    allf = any(n in ('translate', 'LaplaceGen') or n.startswith('gate') for n in names)
+
+    def add(kind, text):
+        out.append({'expr': text, 'zic': False, 'kinds': [kind], 'points': make_points(rng, 1), 'oracle': True, 'targeted': True})
+    for n in names:
+        for fn, tag in (('tri', 'tri'), ('rstep', 'rampstep'), ('rect', 'rect'), ('ramp', 'ramp')):
+            if allf or fn in n.split('_'):
+                for a in ('2', '1/2'):
+                    add('special_scale', '%s(%s)' % (tag, lin(a, 0)))
+        if allf or 'guard' in n or 'sincos' in n:
+            for _ in range(2):
+                add(*g.k_sc3())
+            for _ in range(3):
+                add(*g.k_sincos())
+        if allf or any(x in n for x in ('func', 'deriv', 'integ', 'conv', 'basic')):
+            for _ in range(3):
+                add(*g.k_named())
+        if allf or any(x in n for x in ('const', 'exp', 'basic')):
+            for _ in range(3):
+                add(*g.k_polyexp())
+        if allf:
+            break
+    # de-duplicate
+    seen, res = set(), []
+    for c in out:
+        if c['expr'] not in seen:
+            seen.add(c['expr'])
+            res.append(c)
+    return res
+
+
+def history_cases(rng):
+    """the same expression transformed with different options / constants through one cache"""
+    out = []
+    for v, k in (('v', 1), ('x', 2)):
+        d = 'diff(%s(t), t%s)' % (v, '' if k == 1 else ', %d' % k)
+        out.append({'expr': '3*' + d, 'zic': False, 'pre': [[d, True]], 'kinds': ['history'], 'points': make_points(rng), 'oracle': False})
+        out.append({'expr': d, 'zic': True, 'pre': [['5*' + d, False], [d, False]], 'kinds': ['history'], 'points': make_points(rng), 'oracle': False})
+    out.append({'expr': '2*t*exp(-3*t)', 'zic': False, 'pre': [['t*exp(-3*t)', False], ['7*t*exp(-3*t)', True]], 'kinds': ['history'],
+                'points': make_points(rng), 'oracle': True})
+    out.append({'expr': 'cos(2*t)*u(t - 1)', 'zic': True, 'pre': [['cos(2*t)', False], ['cos(2*t)*u(t - 1)', False]], 'kinds': ['history'],
+                'points': make_points(rng), 'oracle': True})
+    return out
+
+
+# ------------------------------------------------------------------------------------------ main
+def run(tier='quick', replay=None):
+    res = core.Result(PID, tier)
+    rng = random.Random(core.seed() * 104729 + 9)
+    core.ensure_theory(['FieldSec', 'PolyQ', 'ExpPoly', 'QcI', 'LaplaceSig', 'LaplaceModel', 'LaplaceExec',
+                        'LaplaceAnalysis', 'LaplaceLink'])
+    w = core.Work(PID)
+    violations = []
+    try:
+        res.trusted = [
+            'Coq 8.16.1 kernel + vm_compute (no native_compute); Coquelicot 3.x',
+            'translator tools/tr_laplace.py (sha256 %s): arithmetic of the closed forms is translated, the factor-parsing statements '
+            'and the branch order of term/doit/remove_heaviside/key are pinned verbatim' % core.sha256_file(os.path.join(core.VERIF, 'tools', 'tr_laplace.py'))[:16],
+            'worker tools/impl_laplace.py (sha256 %s): reifier (sympy expression -> model AST, as_ordered_factors order), exact evaluator of '
+            "Lcapy's result with the characters of coq/theory/LaplaceExec.v, run-time method wrappers for the dispatch trace"
+            % core.sha256_file(os.path.join(core.VERIF, 'tools', 'impl_laplace.py'))[:16],
+            'specification coq/theory/LaplaceSig.v (signal, LPair, normal forms and their product/shift/sampling algebra) and the '
+            'denotation den/den_mono of coq/theory/LaplaceModel.v (sinh/cosh/sin/cos defined by exponentials)',
+            'oracles modelled, not verified: sympy.integrate + limit (integrate_0 / integrate_0minus) with the contract "returns the '
+            'exp-poly-impulse table value" (hypothesis orc_ok), sympy automatic canonicalisation of products and rewrite(exp)/expand '
+            '(hyp_expand); both validated on every generated case by the correspondence evaluation',
+            'identity testing: values are compared at integer points s0 with exact characters for exp/sin/cos on a lattice (e^{1/D} and '
+            'e^{i/D} are algebraically independent transcendentals, so every true identity survives the substitution)',
+        ]
+        res.assumptions = [
+            'field of characteristic 0 with decidable equality; abstract exp with e^{a+b} = e^a e^b, e^0 = 1; sin/cos given by Euler\'s '
+            'formulas with j*j = -1, sin(x + pi/2) = cos x, cos(x + pi/2) = -sin x; |a| = a for a > 0; a real subfield with the sign rules of '
+            'an ordered field (all hold in C; listed as Section hypotheses in props/C09.v)',
+            'analysis statements: real s in the region of convergence, real poles/phases; impulses and complex s are specification-level',
+        ]
+        texts = {}
+        tph = {}
+        t_ = time.time()
+        # ---- 1. translate -----------------------------------------------------------------------------------
+        tr = None
+        try:
+            tr = T.Translator(core.REPO)
+        except T.Untranslatable as e:
+            res.failed_obl.append(('translate', 'lcapy/laplace.py', str(e)))
+            res.obligations += 1
+        gen_ok = False
+        if tr is not None:
+            texts['LaplaceGen.v'] = tr.coq()
+            w.write('LaplaceGen.v', texts['LaplaceGen.v'])
+            ok, out, secs = core.coqc(w.dir, 'LaplaceGen.v')
+            gen_ok = ok
+            if not ok:
+                res.failed_obl.append(('LaplaceGen', 'LaplaceGen.v', out[-800:]))
+                res.obligations += 1
+            res.extra['sin_cos_guards'] = [list(g) for g in tr.guards]
+        # ---- 2. cases on the real code -------------------------------------------------------------------------
+        n_expr = 64 if tier == 'quick' else 700
+        g = Gen(rng)
+        cases = []
+        if replay:
+            c = dict(replay.get('case') or replay.get('replay', {}).get('case') or {})
+            if not c:
+                print('replay file has no case (it names a theorem/correspondence): %s' % (replay.get('theorem') or replay.get('key')))
+            else:
+                c.setdefault('points', make_points(rng))
+                c['oracle'] = True
+                cases = [c]
+        else:
+            for i in range(n_expr):
+                kinds, text = g.expression()
+                cases.append({'expr': text, 'zic': rng.random() < 0.3, 'kinds': kinds, 'points': make_points(rng), 'oracle': True,
+                              'parts': list(g.last_parts)})
+            cases += history_cases(rng)
+            # corpus of past findings, always run first
+            for txt in ('tri(2*t)', 'rampstep(t/3)', 'rect(t - 1/4)', 'ramp(t + 1)', 'sin(2*t)*u(t - 1)*u(t - 3)',
+                        'diff(delta(2*t - 1), t)', 'v(t)*delta(t - 1)'):
+                cases.insert(0, {'expr': txt, 'zic': False, 'kinds': ['corpus'], 'points': make_points(rng), 'oracle': True})
+        tph['translate+gen'] = round(time.time() - t_, 1); t_ = time.time()
+        results = core.run_impl('impl_laplace.py', cases) if cases else []
+        tph['impl'] = round(time.time() - t_, 1); t_ = time.time()
+
+        def coq_items(cases, results, level):
+            items, meta = [], {}
+            k = 0
+            for i, (c, r) in enumerate(zip(cases, results)):
+                if r.get('status') != 'ok':
+                    continue
+                for pi, (pt, val) in enumerate(zip(c['points'], r['values'])):
+                    lv = level.get((i, pi), 0)
+                    D = None
+                    v = None
+                    for dd in pt['Ds'][lv:]:
+                        vv = val.get(str(dd))
+                        if isinstance(vv, list):
+                            D, v = dd, vv
+                            break
+                    if D is None:
+                        continue
+                    items.append((k, D, c['zic'], r['ast'][pi], pt['s0'], v, r['trace'], pi == 0 and not c.get('pre')))
+                    meta[k] = (i, pi, D)
+                    k += 1
+            return items, meta
+
+        def eval_cases(items, tag):
+            """-> {k: code} for the failing ones, or None when the evaluation itself broke"""
+            shards = [items[i:i + 120] for i in range(0, len(items), 120)]
+            names = []
+            for si, sh in enumerate(shards):
+                nm = 'cases_%s_%d.v' % (tag, si)
+                w.write(nm, cases_v(sh))
+                names.append(nm)
+            return names
+
+        items, meta = coq_items(cases, results, {})
+        case_files = eval_cases(items, 'a') if gen_ok else []
+        # ---- 3. prove (phase 2) + evaluate the cases, in parallel ------------------------------------------------
+        proof_files = []
+        if gen_ok:
+            for f in PHASE2 + PHASE3:
+                texts[f] = open(os.path.join(core.VERIF, 'coq', 'props', f)).read()
+                w.write(f, texts[f])
+            bad = core.gate_text('generated+props', '\n'.join(texts.values()))
+            if bad:
+                res.failed_obl.append(('gate', 'props', '; '.join(bad)))
+                res.obligations += 1
+            r2 = core.coqc_many(w.dir, PHASE2 + case_files, timeout=900)
+            okset = set(f for f in PHASE2 if r2[f][0])
+            ph3 = [f for f in PHASE3 if all(d in okset for d in DEPENDS[f])]
+            r3 = core.coqc_many(w.dir, ph3, timeout=900) if ph3 else {}
+            allr = {f: r2[f] for f in PHASE2}
+            allr.update(r3)
+            res.coq_results(w.dir, allr, {f: texts[f] for f in allr})
+            for f in PHASE3:
+                if f not in r3:
+                    names = core.obligations_in(texts[f])
+                    res.obligations += len(names)
+                    missing = [d for d in DEPENDS[f] if d not in okset]
+                    for nm in names:
+                        res.failed_obl.append((nm, f, 'not checked: needs %s' % ', '.join(missing)))
+            res.extra['coq_seconds'] = {f: round(r[2], 1) for f, r in list(r2.items()) + list(r3.items())}
+            proof_files = list(allr)
+        else:
+            r2 = {}
+            # the props cannot be checked without the generated definitions
+            for f in PHASE2 + PHASE3:
+                t = open(os.path.join(core.VERIF, 'coq', 'props', f)).read()
+                res.obligations += len(core.obligations_in(t))
+        tph['coq'] = round(time.time() - t_, 1); t_ = time.time()
+        # ---- 4. read the correspondence evaluation ------------------------------------------------------------
+        fail = {}
+        corr_broken = False
+        for f in case_files:
+            ok, out, secs = r2[f]
+            fl = parse_failing(out) if ok else None
+            if fl is None:
+                res.failed_obl.append(('correspondence_eval', f, out[-600:]))
+                res.obligations += 1
+                corr_broken = True
+            else:
+                for k, code in fl:
+                    fail[k] = code
+        # value differences: repeat on finer lattices before believing them
+        level = {}
+        final_fail = {}
+        for rnd in (1, 2):
+            retry = {}
+            for k, code in fail.items():
+                i, pi, D = meta[k]
+                if code == 1 and rnd < len(DS) and (results[i].get('oracle') or {}).get('verdict') != 'mismatch':
+                    retry[(i, pi)] = rnd
+                else:
+                    final_fail[(i, pi)] = code
+            if not retry or not gen_ok:
+                break
+            level.update(retry)
+            sub_cases_idx = sorted(set(i for i, _ in retry))
+            it2, meta2 = coq_items(cases, results, level)
+            it2 = [x for x in it2 if (meta2[x[0]][0], meta2[x[0]][1]) in retry]
+            names = eval_cases(it2, 'r%d' % rnd)
+            rr = core.coqc_many(w.dir, names, timeout=900)
+            fail = {}
+            meta = meta2
+            reached = set()
+            for f in names:
+                ok, out, secs = rr[f]
+                fl = parse_failing(out) if ok else None
+                if fl is None:
+                    res.failed_obl.append(('correspondence_eval', f, out[-600:]))
+                    res.obligations += 1
+                    corr_broken = True
+                    continue
+                for k, code in fl:
+                    fail[k] = code
+            for x in it2:
+                reached.add((meta2[x[0]][0], meta2[x[0]][1]))
+            # cases that had no value on the finer lattice keep their verdict
+            for key in retry:
+                if key not in reached:
+                    final_fail[key] = 1
+        else:
+            for k, code in fail.items():
+                i, pi, D = meta[k]
+                final_fail[(i, pi)] = code
+        tph['retry'] = round(time.time() - t_, 1); t_ = time.time()
+        # ---- 5. statistics -------------------------------------------------------------------------------------
+        res.programs = len(set(k for c in cases for k in c['kinds']))
+        for i, (c, r) in enumerate(zip(cases, results)):
+            st = r.get('status')
+            res.count('status_' + str(st))
+            for kd in c['kinds']:
+                res.count('kind_' + kd)
+            if st != 'ok':
                 continue
-            items.append((k, pt['D'], c['zic'], r['ast'][pi], pt['s0'], val, r['trace'], pi == 0))
-            meta[k] = (i, pi)
-            k += 1
-    w.write('cases_0.v', cases_v(items))
-    ok, out, secs = core.coqc(w.dir, 'cases_0.v', timeout=900)
-    print('coqc cases', ok, '%.1fs' % secs)
-    if not ok:
-        print(out[-3000:])
-        return
-    fl = parse_failing(out)
-    print('failing', fl)
-    for kk, code in fl or []:
-        i, pi = meta[kk]
-        print(code, cases[i]['expr'], '| zic', cases[i]['zic'], '| lcapy:', res[i]['result'], '| trace', res[i]['trace'], '| oracle', res[i].get('oracle', {}).get('verdict'))
-    for i, (c, r) in enumerate(zip(cases, res)):
-        o = r.get('oracle') or {}
-        if o.get('verdict') not in (None, 'ok'):
-            print('ORACLE', o.get('verdict'), c['expr'], '|', r.get('result'), '|', o.get('why') or o.get('rows'))
-    if not os.environ.get('VERIF_KEEP'):
-        w.cleanup()
-    else:
-        print(w.dir)
+            nontrivial = any(e != 0 for e in r['trace'])
+            res.add_case(c['expr'] + '|' + str(c['zic']), nontrivial,
+                         {'expr': c['expr'], 'zic': c['zic'], 'lcapy': r['result'], 'dispatch_events': r['trace'],
+                          'oracle': (r.get('oracle') or {}).get('verdict')} if i % 23 == 0 else None)
+            res.count('oracle_' + str((r.get('oracle') or {}).get('verdict')))
+            for e in set(r['trace']):
+                res.count('event_%d' % e)
+        res.extra['traces_validated_against_impl'] = len(items)
+        res.rule = ('cases: %d generated expressions (sums of 1-3 terms; term = coefficient x product of <= 3 factors from polynomials, real/complex '
+                    'exponentials, sin/cos/sinh/cosh with phase, Heaviside/Dirac (and derivatives) with delays >= 0, rect/tri/ramp/rampstep with scale '
+                    'and shift, named functions with shift/scale, derivatives, integrals, convolutions; numeric and symbolic coefficients), history cases '
+                    'through one cache, and the corpus of past findings; each evaluated at 2 integer points s0; non-trivial = Lcapy returned a closed form '
+                    'and the dispatch took at least one non-default branch; distinct = distinct (expression, zero_initial_conditions)') % n_expr
+        # ---- 6. counterexamples: oracle verdicts and value differences ------------------------------------------------
+        suspects = []
+        for i, (c, r) in enumerate(zip(cases, results)):
+            if r.get('status') == 'has_t':
+                suspects.append((i, 'result depends on t'))
+            elif r.get('status') == 'ok':
+                o = r.get('oracle') or {}
+                if o.get('verdict') == 'mismatch':
+                    suspects.append((i, 'quadrature of the defining integral differs from the returned transform'))
+        for (i, pi), code in sorted(final_fail.items()):
+            if code in (1, 3) and not any(i == j for j, _ in suspects):
+                o = (results[i].get('oracle') or {}).get('verdict')
+                res.disagreements.append({'case': cases[i], 'lcapy': results[i].get('result'), 'code': code, 'oracle': o, 'point': cases[i]['points'][pi]})
+            elif code == 2:
+                res.disagreements.append({'case': cases[i], 'lcapy': results[i].get('result'), 'code': 2, 'trace': results[i].get('trace'),
+                                          'oracle': (results[i].get('oracle') or {}).get('verdict')})
+        # one extra round on the real code: inputs around broken obligations + single terms of failing sums
+        broken = [n for n, f, m in res.failed_obl if not m.startswith('not checked')]
+        tc = targeted_cases(rng, broken) if (broken and not replay) else []
+        mini = []
+        for i, why in suspects:
+            r = results[i]
+            ast = (r.get('ast') or [None])[0]
+            if ast is not None and len(ast) > 1:
+                e = cases[i]['expr']
+                for p in (cases[i].get('parts') or [e]):
+                    mini.append({'expr': p, 'zic': cases[i]['zic'], 'kinds': ['minimised'], 'points': make_points(rng, 1), 'oracle': True, 'from': e})
+        seen = set()
+        mini = [m for m in mini if not (m['expr'] in seen or seen.add(m['expr']))]
+        extra = tc + mini
+        xres = core.run_impl('impl_laplace.py', extra) if extra else []
+        tres, mres = xres[:len(tc)], xres[len(tc):]
+        base = len(cases)
+        cases += tc
+        results += tres
+        for i, (c, r) in enumerate(zip(tc, tres)):
+            res.count('targeted')
+            o = r.get('oracle') or {}
+            if r.get('status') == 'ok' and o.get('verdict') == 'mismatch':
+                suspects.append((base + i, 'quadrature of the defining integral differs from the returned transform (targeted search)'))
+            elif r.get('status') == 'has_t':
+                suspects.append((base + i, 'result depends on t'))
+        found = {}
+        bad_terms = set()
+        for m, r in zip(mini, mres):
+            o = r.get('oracle') or {}
+            if (r.get('status') == 'ok' and o.get('verdict') == 'mismatch') or r.get('status') == 'has_t':
+                key = classify(r['ast'][0]) if r.get('ast') else 'value:?'
+                bad_terms.add(m['expr'])
+                found.setdefault(key, {'case': {'expr': m['expr'], 'zic': m['zic']}, 'lcapy': r.get('result'), 'oracle': o, 'why': 'minimised from ' + m['from']})
+        for i, why in suspects:
+            r = results[i]
+            ast = (r.get('ast') or [None])[0]
+            if ast is not None and len(ast) == 1:
+                key = classify(ast)
+                found.setdefault(key, {'case': {'expr': cases[i]['expr'], 'zic': cases[i]['zic']}, 'lcapy': r.get('result'),
+                                       'oracle': r.get('oracle'), 'why': why})
+        # sums none of whose single terms fails alone
+        for i, why in suspects:
+            r = results[i]
+            ast = (r.get('ast') or [None])[0]
+            if ast is None or len(ast) > 1:
+                parts = cases[i].get('parts') or [cases[i]['expr']]
+                if not any(p in bad_terms for p in parts):
+                    key = classify(ast) if ast else 'value:?'
+                    # a single-term run that timed out / failed cannot exonerate the term: fall back to the
+                    # fingerprints of the individual terms
+                    examined = {m['expr']: r.get('status') for m, r in zip(mini, mres)}
+                    if ast and any(examined.get(p) != 'ok' for p in parts):
+                        ks = [classify([m]) for m in ast]
+                        ks = [k for k in ks if not k.startswith('value:')]
+                        if ks:
+                            key = ks[0]
+                    found.setdefault(key, {'case': {'expr': cases[i]['expr'], 'zic': cases[i]['zic']}, 'lcapy': r.get('result'),
+                                           'oracle': r.get('oracle'), 'why': why})
+        for key, f in sorted(found.items()):
+            res.counterexamples.append(f)
+            violations.append({'key': key, 'what': 'Lcapy returns %s for %s, which is not the unilateral Laplace integral (%s)' % (
+                                   f['lcapy'], f['case']['expr'], key),
+                               'case': f['case'], 'lcapy': f['lcapy'], 'oracle': f['oracle'], 'found_input': True,
+                               'how': './check C09 --replay <this file>'})
+        tph['search'] = round(time.time() - t_, 1)
+        res.extra['phase_seconds'] = tph
+        # ---- 7. broken obligations / correspondence without a failing input --------------------------------------------
+        explained = set()
+        for name, f, msg in res.failed_obl:
+            keys = OBLIGATION_KEYS.get(name, [])
+            if any(k in found for k in keys):
+                explained.add(name)
+        root_broken = [n for n, f, m in res.failed_obl if not m.startswith('not checked') and n not in explained]
+        for name, f, msg in res.failed_obl:
+            if name in explained:
+                continue
+            if msg.startswith('not checked'):
+                # consequence of another failed file: reported through that one
+                continue
+            violations.append({'key': 'obligation:' + name, 'what': 'Coq obligation %s in %s no longer checks' % (name, f),
+                               'theorem': name, 'file': f, 'message': msg[-1500:], 'found_input': False})
+        seen_corr = set()
+        for d in res.disagreements:
+            c = d['case']
+            r_ast = None
+            sig = 'dispatch' if d['code'] == 2 else 'value'
+            # fingerprint: kinds of the expression
+            k = 'correspondence:%s:%s' % (sig, '+'.join(sorted(set(c['kinds']))))
+            if k in seen_corr:
+                continue
+            seen_corr.add(k)
+            violations.append({'key': k, 'what': 'the hand model of LaplaceTransformer.term/doit and the real transformer differ (%s)' % sig,
+                               'case': {'expr': c['expr'], 'zic': c['zic']}, 'detail': d, 'found_input': False,
+                               'correspondence': 'LT.LaplaceModel.doit vs lcapy.laplace.laplace_transformer'})
+        if replay and cases:
+            r = results[0]
+            print('expression      :', cases[0]['expr'], ' zero_initial_conditions =', cases[0].get('zic', False))
+            print('implementation  :', r.get('status'), r.get('result') or r.get('error') or '')
+            print('dispatch events :', r.get('trace'))
+            print('model (Coq)     :', 'agrees' if not final_fail else 'differs, codes %s' % sorted(set(final_fail.values())))
+            print('oracle          :', json.dumps(r.get('oracle'), indent=1))
+        return core.finish(res, violations)
+    finally:
+        if not os.environ.get('VERIF_KEEP'):
+            w.cleanup()
 
 
-if __name__ == '__main__' and len(sys.argv) > 2 and sys.argv[2] == 'x':
-    experiment(int(sys.argv[1]), int(sys.argv[3]) if len(sys.argv) > 3 else 48)
+if __name__ == '__main__':
+    sys.exit(run(sys.argv[1] if len(sys.argv) > 1 else 'quick'))
